@@ -224,3 +224,24 @@ def self_effects(ctx, lf, allow=()):
                     if ty.get("k") == "ref" and ty.get("mut") and last_seg(e[3]) not in allow:
                         out.append(("mutcall", e[3], e[1]))
     return out
+
+
+_rcache = {}
+
+
+def receive_leaves(ctx):
+    """read_bytes with the receive wrapper (and any helper) traversed inline: the receive path as one function, whatever
+    the division of labour between read_bytes and recv_with_fds.  Returns (fn, leaves)."""
+    key = id(ctx.facts)
+    if key not in _rcache:
+        fn = ctx.facts.fn(READ_BYTES)
+        _rcache[key] = (fn, PathEnum(fn, ctx.facts, inline_also=lambda p, a: p == RECV).run())
+    ctx.touched(READ_BYTES)
+    if ctx.facts.has_fn(RECV):
+        ctx.touched(RECV)
+    return _rcache[key]
+
+
+def os_receive_calls(lf):
+    """The call(s) of this path that receive from the stream: ScmSocket::recv_with_fds (not the crate's wrapper of the same name)."""
+    return [e for e in lf.events if e[0] == "call" and last_seg(e[3]) == "recv_with_fds" and e[3] != RECV]
